@@ -131,13 +131,33 @@ fn cmd_run_supervised(id: &str, tier: Tier) -> i32 {
     let seed = seed_from_env();
     for job in jobs {
         let planlog = dir.join(format!(".planlog-{}-{}", std::process::id(), job));
-        let st = std::process::Command::new(&exe)
+        let child = std::process::Command::new(&exe)
             .args(["show", id, tier.name(), &job.to_string()])
             .env("SIM_PLANLOG", &planlog)
             .stdout(std::process::Stdio::null())
             .stderr(std::process::Stdio::null())
-            .status();
-        let died = matches!(&st, Ok(s) if s.code().is_none());
+            .spawn();
+        // a wedged run never returns: give the probe a deadline
+        let died = match child {
+            Ok(mut c) => {
+                let t0 = std::time::Instant::now();
+                loop {
+                    match c.try_wait() {
+                        Ok(Some(s)) => break s.code().is_none(),
+                        Ok(None) => {
+                            if t0.elapsed().as_secs() > WEDGE_S + 30 {
+                                let _ = c.kill();
+                                let _ = c.wait();
+                                break true;
+                            }
+                            std::thread::sleep(std::time::Duration::from_millis(50));
+                        }
+                        Err(_) => break false,
+                    }
+                }
+            }
+            Err(_) => false,
+        };
         if died {
             if let Ok(text) = std::fs::read_to_string(&planlog) {
                 if let Ok(plan) = serde_json::from_str::<plan::Plan>(&text) {
@@ -383,7 +403,20 @@ fn cmd_replay(path: &str, quiet: bool) -> i32 {
             .env("SIMCHECK_INNER", "1")
             .stdout(std::process::Stdio::null())
             .stderr(std::process::Stdio::null())
-            .status();
+            .spawn()
+            .and_then(|mut c| {
+                let t0 = std::time::Instant::now();
+                loop {
+                    if let Some(s) = c.try_wait()? {
+                        return Ok(s);
+                    }
+                    if t0.elapsed().as_secs() > WEDGE_S + 30 {
+                        c.kill()?;
+                        return c.wait();
+                    }
+                    std::thread::sleep(std::time::Duration::from_millis(50));
+                }
+            });
         return match st {
             Ok(s) if s.code().is_none() => {
                 if !quiet {
